@@ -148,6 +148,15 @@ def SdSpec (sd : SD) (D : Bytes → Nat) : Prop :=
   ∀ (t : NumTok) (rest : Bytes), t.valid = true → delim rest = true →
     sd (t.text ++ rest) = (D t.text, t.text.length, false)
 
+/-- the same for the tokens satisfying `ok` only (the model of `iwstrtod` meets this for tokens whose exponent `pow` can
+    represent, see `Lemmas/Strtod.lean`) -/
+def SdSpecOn (ok : NumTok → Bool) (sd : SD) (D : Bytes → Nat) : Prop :=
+  ∀ (t : NumTok) (rest : Bytes), t.valid = true → ok t = true → delim rest = true →
+    sd (t.text ++ rest) = (D t.text, t.text.length, false)
+
+theorem SdSpec.on {sd : SD} {D : Bytes → Nat} (h : SdSpec sd D) : SdSpecOn (fun _ => true) sd D :=
+  fun t rest hv _ hd => h t rest hv hd
+
 theorem delim_numEnd (rest : Bytes) (h : delim rest = true) : numEnd rest = true := by
   cases rest with
   | nil => rfl
@@ -208,8 +217,8 @@ theorem NumTok.tail_head (t : NumTok) (hv : t.valid = true) (hfe : (t.frac.isSom
       omega
 
 /-- an integer literal beyond int64 is read through the double branch -/
-theorem parseNumber_big (sd : SD) (D : Bytes → Nat) (hsd : SdSpec sd D) (t : NumTok) (rest : Bytes)
-    (hv : t.valid = true) (hfe : (t.frac.isSome || t.exp.isSome) = false) (hdl : delim rest = true) :
+theorem parseNumber_big (sd : SD) (D : Bytes → Nat) (ok : NumTok → Bool) (hsd : SdSpecOn ok sd D) (t : NumTok) (rest : Bytes)
+    (hv : t.valid = true) (hk : ok t = true) (hfe : (t.frac.isSome || t.exp.isSome) = false) (hdl : delim rest = true) :
     parseNumber sd (t.text ++ rest) = .ok (.f64 (D t.text), rest) := by
   have hf : t.frac = none := by cases h : t.frac <;> simp [h] at hfe ⊢
   have he : t.exp = none := by cases h : t.exp <;> simp [h] at hfe ⊢
@@ -221,7 +230,7 @@ theorem parseNumber_big (sd : SD) (D : Bytes → Nat) (hsd : SdSpec sd D) (t : N
   have htext : t.text = signText t.neg ++ Conv.digits t.ip := by simp [NumTok.text, htail]
   have hs := strtoll_digits t.neg t.ip rest (delim_numEnd rest hdl)
   obtain ⟨c0, r0, hdg, -, -, -⟩ := digits_head t.ip
-  have hsd' := hsd t rest hv hdl
+  have hsd' := hsd t rest hv hk hdl
   have hlen : t.text.length ≠ 0 := by simp [htext, hdg]
   have hdrop : (t.text ++ rest).drop t.text.length = rest := List.drop_left
   have hcl : clamp t.neg t.ip ((signText t.neg).length + (Conv.digits t.ip).length) =
@@ -237,8 +246,8 @@ theorem parseNumber_big (sd : SD) (D : Bytes → Nat) (hsd : SdSpec sd D) (t : N
   rw [hs, hcl]
   simp [hnz, hlen, hdrop, hdne]
 
-theorem parseNumber_fracexp (sd : SD) (D : Bytes → Nat) (hsd : SdSpec sd D) (t : NumTok) (rest : Bytes)
-    (hv : t.valid = true) (hfe : (t.frac.isSome || t.exp.isSome) = true) (hdl : delim rest = true) :
+theorem parseNumber_fracexp (sd : SD) (D : Bytes → Nat) (ok : NumTok → Bool) (hsd : SdSpecOn ok sd D) (t : NumTok) (rest : Bytes)
+    (hv : t.valid = true) (hk : ok t = true) (hfe : (t.frac.isSome || t.exp.isSome) = true) (hdl : delim rest = true) :
     parseNumber sd (t.text ++ rest) = .ok (.f64 (D t.text), rest) := by
   obtain ⟨c, r, htl, hc⟩ := t.tail_head hv hfe
   have hne : numEnd (t.tail ++ rest) = true := by
@@ -250,7 +259,7 @@ theorem parseNumber_fracexp (sd : SD) (D : Bytes → Nat) (hsd : SdSpec sd D) (t
     simp [NumTok.text, List.append_assoc]
   have hs := strtoll_digits t.neg t.ip (t.tail ++ rest) hne
   obtain ⟨c0, r0, hdg, -, -, -⟩ := digits_head t.ip
-  have hsd' := hsd t rest hv hdl
+  have hsd' := hsd t rest hv hk hdl
   have hlen : t.text.length ≠ 0 := by simp [NumTok.text, hdg]
   have hdrop0 : (t.text ++ rest).drop ((signText t.neg).length + (Conv.digits t.ip).length) = t.tail ++ rest := by
     rw [hp, ← List.length_append, List.drop_left]
@@ -273,11 +282,11 @@ theorem parseNumber_fracexp (sd : SD) (D : Bytes → Nat) (hsd : SdSpec sd D) (t
     exact List.drop_left
   cases er <;> simp [hnz, hc', hlen, hdne, hsd', hfin]
 
-theorem parseNumber_dbl (sd : SD) (D : Bytes → Nat) (hsd : SdSpec sd D) (t : NumTok) (rest : Bytes)
-    (hv : t.valid = true) (hdl : delim rest = true) :
+theorem parseNumber_dbl (sd : SD) (D : Bytes → Nat) (ok : NumTok → Bool) (hsd : SdSpecOn ok sd D) (t : NumTok) (rest : Bytes)
+    (hv : t.valid = true) (hk : ok t = true) (hdl : delim rest = true) :
     parseNumber sd (t.text ++ rest) = .ok (.f64 (D t.text), rest) := by
   cases hfe : (t.frac.isSome || t.exp.isSome)
-  · exact parseNumber_big sd D hsd t rest hv hfe hdl
-  · exact parseNumber_fracexp sd D hsd t rest hv hfe hdl
+  · exact parseNumber_big sd D ok hsd t rest hv hk hfe hdl
+  · exact parseNumber_fracexp sd D ok hsd t rest hv hk hfe hdl
 
 end IwModel.Json
